@@ -182,6 +182,15 @@ theorem geo_write_fixpoint_partial (g : Geo) (hwf : WF g = true) (hk : LayerCent
   have hs := Proofs.GeoFile.sizesStable_of_fits g w.hdr.vol w.hdr.conn
   exact ⟨t, canonGeo g, hw, hr, by rw [Proofs.GeoFile.write_canon w hk hs, hw]⟩
 
+/-- further generations change nothing: the re-read geometry is written to the same text and read
+    back as itself -/
+theorem later_generations (g g' : Geo) (hwf : WF g = true) (hk : LayerCentresKept g = true) (h : Reread g g') :
+    Reread g' g' := by
+  obtain ⟨t, g'', hw, hr, hw2⟩ := geo_write_fixpoint_partial g hwf hk
+  have e : g'' = g' := reread_unique ⟨t, hw, hr⟩ h
+  subst e
+  exact ⟨t, hw2, hr⟩
+
 /-- a number that already has `p` decimals (resp. `p+1` significant digits) is printed as itself:
     sign and digits of the rounded value are those of the value -/
 theorem rounding_idempotent (p : Nat) (hp : 0 < p) (x : Flt) :
